@@ -21,6 +21,21 @@ structure CRel (s t : St) (c d : Cli) : Prop where
   inst : d.inst = c.inst ∨ ∃ a, d.inst = some a ∧ s.nextInst ≤ a ∧ a < t.nextInst
   table : ∀ o ∈ d.table, o ∈ c.table ∨ (s.nextObj ≤ o ∧ o < t.nextObj)
 
+/-- the same record, up to membership of `Server.clients` being cleared (`clients.clear()` of the pool touches every
+record and means nothing for a client that was not in the set) -/
+def Same (c d : Cli) : Prop := d = c ∨ d = { c with tracked := false }
+
+theorem Same.refl (c : Cli) : Same c c := Or.inl rfl
+theorem Same.trans {c d e : Cli} (h1 : Same c d) (h2 : Same d e) : Same c e := by
+  rcases h1 with rfl | rfl <;> rcases h2 with rfl | rfl
+  · exact Or.inl rfl
+  · exact Or.inr rfl
+  · exact Or.inr rfl
+  · exact Or.inr rfl
+
+theorem Same.phase {c d : Cli} (h : Same c d) : d.phase = c.phase := by rcases h with rfl | rfl <;> rfl
+theorem Same.inst {c d : Cli} (h : Same c d) : d.inst = c.inst := by rcases h with rfl | rfl <;> rfl
+
 /-- everything allocated so far is below the counters -/
 def Bound (s : St) : Prop :=
   (∀ j a, (s.cli j).inst = some a → a < s.nextInst) ∧ (∀ j o, o ∈ (s.cli j).table → o < s.nextObj)
@@ -35,7 +50,11 @@ structure Eff (s t : St) (T : Nat → Prop) : Prop where
   nI : s.nextInst ≤ t.nextInst
   nO : s.nextObj ≤ t.nextObj
   cli : ∀ j, CRel s t (s.cli j) (t.cli j)
-  frame : ∀ j, ¬ T j → t.cli j = s.cli j
+  /-- containment: a client outside `T` that is not waiting in the pool's queue keeps its record -/
+  frame : ∀ j, ¬ T j → j ∉ s.queue → Same (s.cli j) (t.cli j)
+  queue : ∀ j ∈ t.queue, j ∈ s.queue ∨ T j
+  /-- ... exactly, unless the server is a pool (whose `clients.clear()` rewrites every record) -/
+  exact : s.cfg.kind ≠ .pool → ∀ j, ¬ T j → j ∉ s.queue → t.cli j = s.cli j
   /-- two clients share a service instance / an object id afterwards only if they did before -/
   uniqI : Bound s → ∀ i j a, (t.cli i).inst = some a → (t.cli j).inst = some a →
     i = j ∨ ((s.cli i).inst = some a ∧ (s.cli j).inst = some a)
@@ -47,7 +66,8 @@ theorem CRel.refl (s t : St) (c : Cli) : CRel s t c c :=
 
 theorem Eff.refl (s : St) (T : Nat → Prop) : Eff s s T :=
   ⟨rfl, fun _ _ => ⟨rfl, rfl, rfl, rfl, rfl⟩, fun _ _ h _ => h, Nat.le_refl _, Nat.le_refl _,
-    fun j => CRel.refl s s _, fun _ _ => rfl, fun _ i j a hi hj => Or.inr ⟨hi, hj⟩, fun _ i j o hi hj => Or.inr ⟨hi, hj⟩⟩
+    fun j => CRel.refl s s _, fun _ _ _ => Same.refl _, fun _ h => Or.inl h, fun _ _ _ _ => rfl,
+    fun _ i j a hi hj => Or.inr ⟨hi, hj⟩, fun _ i j o hi hj => Or.inr ⟨hi, hj⟩⟩
 
 theorem Eff.bound {s t : St} {T : Nat → Prop} (e : Eff s t T) (b : Bound s) : Bound t := by
   refine ⟨?_, ?_⟩
@@ -60,8 +80,14 @@ theorem Eff.bound {s t : St} {T : Nat → Prop} (e : Eff s t T) (b : Bound s) : 
     · have := b.2 j o h1; have := e.nO; omega
     · exact h2
 
+theorem Eff.mono' {s t : St} {T T' : Nat → Prop} (e : Eff s t T) (h : ∀ j, T j → T' j ∨ j ∈ s.queue) : Eff s t T' :=
+  { e with
+    frame := fun j hj hq => e.frame j (fun hT => (h j hT).elim hj hq) hq
+    queue := fun j hj => (e.queue j hj).elim Or.inl (fun hT => (h j hT).elim Or.inr Or.inl)
+    exact := fun hk j hj hq => e.exact hk j (fun hT => (h j hT).elim hj hq) hq }
+
 theorem Eff.mono {s t : St} {T T' : Nat → Prop} (e : Eff s t T) (h : ∀ j, T j → T' j) : Eff s t T' :=
-  { e with frame := fun j hj => e.frame j (fun hT => hj (h j hT)) }
+  e.mono' (fun j hT => Or.inl (h j hT))
 
 theorem CRel.trans {s t u : St} {c d e' : Cli} (h1 : CRel s t c d) (h2 : CRel t u d e') (hI : s.nextInst ≤ t.nextInst)
     (hI' : t.nextInst ≤ u.nextInst) (hO : s.nextObj ≤ t.nextObj) (hO' : t.nextObj ≤ u.nextObj) : CRel s u c e' := by
@@ -86,7 +112,7 @@ theorem CRel.trans {s t u : St} {c d e' : Cli} (h1 : CRel s t c d) (h2 : CRel t 
 theorem Eff.trans {s t u : St} {T T' : Nat → Prop} (e1 : Eff s t T) (e2 : Eff t u T') :
     Eff s u (fun j => T j ∨ T' j) := by
   have hk : t.cfg = s.cfg := e1.cfg
-  refine ⟨e2.cfg.trans e1.cfg, ?_, ?_, Nat.le_trans e1.nI e2.nI, Nat.le_trans e1.nO e2.nO, ?_, ?_, ?_, ?_⟩
+  refine ⟨e2.cfg.trans e1.cfg, ?_, ?_, Nat.le_trans e1.nI e2.nI, Nat.le_trans e1.nO e2.nO, ?_, ?_, ?_, ?_, ?_, ?_⟩
   · intro h1 h2
     obtain ⟨a1, a2, a3, a4, a5⟩ := e1.flags h1 h2
     obtain ⟨b1, b2, b3, b4, b5⟩ := e2.flags (by rw [hk]; exact h1) (by rw [a4]; exact h2)
@@ -100,8 +126,24 @@ theorem Eff.trans {s t u : St} {T T' : Nat → Prop} (e1 : Eff s t T) (e2 : Eff 
     · exact Or.inr (Or.inl (by rw [hk]; exact h1))
     · exact Or.inr (Or.inr (fun j => by rw [(e1.cli j).cred]; exact h1 j))
   · intro j; exact (e1.cli j).trans (e2.cli j) e1.nI e2.nI e1.nO e2.nO
+  · intro j hj hq
+    refine (e1.frame j (fun h => hj (Or.inl h)) hq).trans (e2.frame j (fun h => hj (Or.inr h)) ?_)
+    intro hq'
+    rcases e1.queue j hq' with h | h
+    · exact hq h
+    · exact hj (Or.inl h)
   · intro j hj
-    rw [e2.frame j (fun h => hj (Or.inr h)), e1.frame j (fun h => hj (Or.inl h))]
+    rcases e2.queue j hj with h | h
+    · rcases e1.queue j h with h' | h'
+      · exact Or.inl h'
+      · exact Or.inr (Or.inl h')
+    · exact Or.inr (Or.inr h)
+  · intro hkind j hj hq
+    rw [e2.exact (by rw [hk]; exact hkind) j (fun h => hj (Or.inr h)) ?_, e1.exact hkind j (fun h => hj (Or.inl h)) hq]
+    intro hq'
+    rcases e1.queue j hq' with h | h
+    · exact hq h
+    · exact hj (Or.inl h)
   · intro b i j a hi hj
     rcases e2.uniqI (e1.bound b) i j a hi hj with h | ⟨h1, h2⟩
     · exact Or.inl h
@@ -118,14 +160,14 @@ structure EffC (s t : St) (T : Nat → Prop) : Prop where
   nI : s.nextInst ≤ t.nextInst
   nO : s.nextObj ≤ t.nextObj
   cli : ∀ j, CRel s t (s.cli j) (t.cli j)
-  frame : ∀ j, ¬ T j → t.cli j = s.cli j
+  frame : ∀ j, ¬ T j → Same (s.cli j) (t.cli j)
   uniqI : Bound s → ∀ i j a, (t.cli i).inst = some a → (t.cli j).inst = some a →
     i = j ∨ ((s.cli i).inst = some a ∧ (s.cli j).inst = some a)
   uniqO : Bound s → ∀ i j o, o ∈ (t.cli i).table → o ∈ (t.cli j).table →
     i = j ∨ (o ∈ (s.cli i).table ∧ o ∈ (s.cli j).table)
 
-theorem Eff.toC {s t : St} {T : Nat → Prop} (e : Eff s t T) : EffC s t T :=
-  ⟨e.cfg, e.nI, e.nO, e.cli, e.frame, e.uniqI, e.uniqO⟩
+theorem Eff.toC {s t : St} {T : Nat → Prop} (e : Eff s t T) : EffC s t (fun _ => True) :=
+  ⟨e.cfg, e.nI, e.nO, e.cli, fun _ h => absurd trivial h, e.uniqI, e.uniqO⟩
 
 theorem EffC.bound {s t : St} {T : Nat → Prop} (e : EffC s t T) (b : Bound s) : Bound t := by
   refine ⟨?_, ?_⟩
@@ -139,8 +181,10 @@ theorem EffC.bound {s t : St} {T : Nat → Prop} (e : EffC s t T) (b : Bound s) 
     · exact h2
 
 /-- for a one-shot server the flag clauses of `Eff` say nothing -/
-theorem EffC.toEff_oneshot {s t : St} {T : Nat → Prop} (e : EffC s t T) (h : s.cfg.kind = .oneshot) : Eff s t T :=
-  ⟨e.cfg, fun h1 => absurd h h1, fun _ _ _ h4 => absurd h h4, e.nI, e.nO, e.cli, e.frame, e.uniqI, e.uniqO⟩
+theorem EffC.toEff_oneshot {s t : St} {T : Nat → Prop} (e : EffC s t T) (h : s.cfg.kind = .oneshot)
+    (hq : ∀ j ∈ t.queue, j ∈ s.queue ∨ T j) (hall : ∀ j, T j) : Eff s t T :=
+  ⟨e.cfg, fun h1 => absurd h h1, fun _ _ _ h4 => absurd h h4, e.nI, e.nO, e.cli, fun j hj _ => e.frame j hj, hq,
+    fun _ j hj _ => absurd (hall j) hj, e.uniqI, e.uniqO⟩
 
 /-- a map over all records that keeps credentials and instances, only finishes clients, and only shrinks tables -/
 theorem EffC.map (s t : St) (f : Cli → Cli) (hc : ∀ c, (f c).cred = c.cred)
@@ -163,7 +207,7 @@ theorem Eff.set1 (s t : St) (k : Nat) (c' : Cli) (hcred : c'.cred = (s.cli k).cr
     (e1 : t.cfg = s.cfg) (e2 : t.listening = s.listening) (e3 : t.active = s.active)
     (e4 : t.acceptAlive = s.acceptAlive) (e5 : t.closedFlag = s.closedFlag) (e6 : t.poolUp = s.poolUp)
     (e7 : t.acceptBusy = s.acceptBusy) (e8 : t.nextInst = s.nextInst) (e9 : t.nextObj = s.nextObj)
-    (e10 : t.cli = (s.set k c').cli) : Eff s t (· = k) := by
+    (e10 : t.cli = (s.set k c').cli) (e11 : t.queue = s.queue) : Eff s t (· = k) := by
   have hcli : ∀ j, j ≠ k → t.cli j = s.cli j := fun j hj => by rw [e10]; exact set_cli_ne _ _ _ _ hj
   have hk : t.cli k = c' := by rw [e10]; simp
   have hinst' : ∀ j, (t.cli j).inst = (s.cli j).inst := by
@@ -175,7 +219,7 @@ theorem Eff.set1 (s t : St) (k : Nat) (c' : Cli) (hcred : c'.cred = (s.cli k).cr
     · subst hj; rw [hk] at ho; exact htab o ho
     · rw [hcli j hj] at ho; exact ho
   refine ⟨e1, fun _ _ => ⟨e2, e3, e4, e5, e6⟩, fun _ _ h _ => by rw [e7]; exact h, by omega, by omega, ?_,
-    fun j hj => hcli j hj, ?_, ?_⟩
+    fun j hj _ => Or.inl (hcli j hj), fun j hj => Or.inl (e11 ▸ hj), fun _ j hj _ => hcli j hj, ?_, ?_⟩
   · intro j; by_cases hj : j = k
     · subst hj; rw [hk]; exact ⟨hcred, hph, Or.inl hinst, fun o ho => Or.inl (htab o ho)⟩
     · rw [hcli j hj]; exact CRel.refl _ _ _
@@ -191,10 +235,12 @@ theorem Eff.set1B (s t : St) (k : Nat) (c' : Cli) (hcred : c'.cred = (s.cli k).c
     (e4 : t.acceptAlive = s.acceptAlive) (e5 : t.closedFlag = s.closedFlag) (e6 : t.poolUp = s.poolUp)
     (hb : (s.cfg.kind = .threaded ∨ s.cfg.kind = .forking ∨ ∀ j, (s.cli j).cred ≠ .silent) → t.acceptBusy = none)
     (e8 : t.nextInst = s.nextInst) (e9 : t.nextObj = s.nextObj)
-    (e10 : t.cli = (s.set k c').cli) : Eff s t (· = k) := by
+    (e10 : t.cli = (s.set k c').cli) (e11 : t.queue = s.queue) : Eff s t (· = k) := by
   have e := Eff.set1 s { t with acceptBusy := s.acceptBusy } k c' hcred hph hinst htab e1 e2 e3 e4 e5 e6 rfl e8 e9 e10
+    e11
   exact ⟨e1, fun _ _ => ⟨e2, e3, e4, e5, e6⟩, fun h1 _ _ _ => hb h1, by omega, by omega,
-    fun j => ⟨(e.cli j).cred, (e.cli j).phase, (e.cli j).inst, (e.cli j).table⟩, e.frame, e.uniqI, e.uniqO⟩
+    fun j => ⟨(e.cli j).cred, (e.cli j).phase, (e.cli j).inst, (e.cli j).table⟩, e.frame, e.queue, e.exact, e.uniqI,
+    e.uniqO⟩
 
 /-- the record of `k` replaced by what serving its inbox made of it: objects come from the counter -/
 theorem Eff.setServe (s t : St) (k : Nat) (c' : Cli) (n' : Nat) (hcred : c'.cred = (s.cli k).cred)
@@ -203,7 +249,7 @@ theorem Eff.setServe (s t : St) (k : Nat) (c' : Cli) (n' : Nat) (hcred : c'.cred
     (e1 : t.cfg = s.cfg) (e2 : t.listening = s.listening) (e3 : t.active = s.active)
     (e4 : t.acceptAlive = s.acceptAlive) (e5 : t.closedFlag = s.closedFlag) (e6 : t.poolUp = s.poolUp)
     (e7 : t.acceptBusy = s.acceptBusy) (e8 : t.nextInst = s.nextInst) (e9 : t.nextObj = n')
-    (e10 : t.cli = (s.set k c').cli) : Eff s t (· = k) := by
+    (e10 : t.cli = (s.set k c').cli) (e11 : t.queue = s.queue) : Eff s t (· = k) := by
   have hcli : ∀ j, j ≠ k → t.cli j = s.cli j := fun j hj => by rw [e10]; exact set_cli_ne _ _ _ _ hj
   have hk : t.cli k = c' := by rw [e10]; simp
   have hinst' : ∀ j, (t.cli j).inst = (s.cli j).inst := by
@@ -211,7 +257,7 @@ theorem Eff.setServe (s t : St) (k : Nat) (c' : Cli) (n' : Nat) (hcred : c'.cred
     · subst hj; rw [hk, hinst]
     · rw [hcli j hj]
   refine ⟨e1, fun _ _ => ⟨e2, e3, e4, e5, e6⟩, fun _ _ h _ => by rw [e7]; exact h, by omega, by omega, ?_,
-    fun j hj => hcli j hj, ?_, ?_⟩
+    fun j hj _ => Or.inl (hcli j hj), fun j hj => Or.inl (e11 ▸ hj), fun _ j hj _ => hcli j hj, ?_, ?_⟩
   · intro j; by_cases hj : j = k
     · subst hj; rw [hk]
       exact ⟨hcred, hph, Or.inl hinst, fun o ho => by rw [e9]; exact htab o ho⟩
@@ -235,7 +281,7 @@ theorem built_eff (s : St) (k : Nat) : Eff s (built s k) (· = k) := by
   have hcli : ∀ j, j ≠ k → (built s k).cli j = s.cli j := fun j hj => by simp [built, set_cli_ne _ _ _ _ hj]
   have hk : ((built s k).cli k).inst = some s.nextInst := by simp [built]
   refine ⟨rfl, fun _ _ => ⟨rfl, rfl, rfl, rfl, rfl⟩, fun _ _ h _ => h, by simp [built], by simp [built], ?_,
-    fun j hj => hcli j hj, ?_, ?_⟩
+    fun j hj _ => Or.inl (hcli j hj), fun j hj => Or.inl hj, fun _ j hj _ => hcli j hj, ?_, ?_⟩
   · intro j; by_cases hj : j = k
     · subst hj
       refine ⟨by simp [built], Or.inr (by simp [built, Live]), Or.inr ⟨s.nextInst, hk, Nat.le_refl _, by simp [built]⟩, ?_⟩
@@ -349,12 +395,16 @@ theorem poolConsume_served (l : List Item) (c : Cli) (n : Nat) : Served1 c n (po
 
 /-! ### every function of the automaton -/
 
+theorem EffC.refl (s : St) (T : Nat → Prop) : EffC s s T :=
+  ⟨rfl, Nat.le_refl _, Nat.le_refl _, fun j => CRel.refl s s _, fun _ _ => Same.refl _,
+    fun _ i j a hi hj => Or.inr ⟨hi, hj⟩, fun _ i j o hi hj => Or.inr ⟨hi, hj⟩⟩
+
 theorem EffC.trans {s t u : St} {T T' : Nat → Prop} (e1 : EffC s t T) (e2 : EffC t u T') :
     EffC s u (fun j => T j ∨ T' j) := by
   refine ⟨e2.cfg.trans e1.cfg, Nat.le_trans e1.nI e2.nI, Nat.le_trans e1.nO e2.nO, ?_, ?_, ?_, ?_⟩
   · intro j; exact (e1.cli j).trans (e2.cli j) e1.nI e2.nI e1.nO e2.nO
   · intro j hj
-    rw [e2.frame j (fun h => hj (Or.inr h)), e1.frame j (fun h => hj (Or.inl h))]
+    exact (e1.frame j (fun h => hj (Or.inl h))).trans (e2.frame j (fun h => hj (Or.inr h)))
   · intro b i j a hi hj
     rcases e2.uniqI (e1.bound b) i j a hi hj with h | ⟨h1, h2⟩
     · exact Or.inl h
@@ -371,16 +421,41 @@ theorem EffC.mono {s t : St} {T T' : Nat → Prop} (e : EffC s t T) (h : ∀ j, 
 theorem Eff.same (s t : St) (T : Nat → Prop) (e1 : t.cfg = s.cfg) (e2 : t.listening = s.listening)
     (e3 : t.active = s.active) (e4 : t.acceptAlive = s.acceptAlive) (e5 : t.closedFlag = s.closedFlag)
     (e6 : t.poolUp = s.poolUp) (e7 : t.acceptBusy = s.acceptBusy) (e8 : t.nextInst = s.nextInst)
-    (e9 : t.nextObj = s.nextObj) (e10 : t.cli = s.cli) : Eff s t T := by
-  refine ⟨e1, fun _ _ => ⟨e2, e3, e4, e5, e6⟩, fun _ _ h _ => by rw [e7]; exact h, by omega, by omega, ?_, ?_, ?_, ?_⟩
+    (e9 : t.nextObj = s.nextObj) (e10 : t.cli = s.cli) (e11 : ∀ j ∈ t.queue, j ∈ s.queue ∨ T j) : Eff s t T := by
+  refine ⟨e1, fun _ _ => ⟨e2, e3, e4, e5, e6⟩, fun _ _ h _ => by rw [e7]; exact h, by omega, by omega, ?_, ?_, e11,
+    fun _ j _ _ => by rw [e10], ?_, ?_⟩
   · intro j; rw [e10]; exact CRel.refl _ _ _
-  · intro j _; rw [e10]
+  · intro j _ _; rw [e10]; exact Same.refl _
   · intro _ i j a h1 h2; rw [e10] at h1 h2; exact Or.inr ⟨h1, h2⟩
   · intro _ i j o h1 h2; rw [e10] at h1 h2; exact Or.inr ⟨h1, h2⟩
 
-/-- the clients a per-client function may touch: its own, and for the kinds whose threads are shared (pool) or
-whose accept thread serves (one-shot) possibly others -/
-def Tk (s : St) (k : Nat) (j : Nat) : Prop := j = k ∨ s.cfg.kind = .oneshot ∨ s.cfg.kind = .pool
+/-- a map over all records that changes nothing but membership of `Server.clients` -/
+theorem Eff.mapSame (s t : St) (f : Cli → Cli) (hs : ∀ c, Same c (f c)) (hk : s.cfg.kind = .pool)
+    (e1 : t.cfg = s.cfg) (e2 : t.listening = s.listening) (e3 : t.active = s.active)
+    (e4 : t.acceptAlive = s.acceptAlive) (e5 : t.closedFlag = s.closedFlag) (e6 : t.poolUp = s.poolUp)
+    (e7 : t.acceptBusy = none ∨ t.acceptBusy = s.acceptBusy) (e8 : t.nextInst = s.nextInst) (e9 : t.nextObj = s.nextObj)
+    (e10 : t.cli = (s.mapCli f).cli) (e11 : t.queue = s.queue) : Eff s t (fun _ => False) := by
+  have hcli : ∀ j, t.cli j = f (s.cli j) := fun j => by rw [e10]; rfl
+  have hi : ∀ c, (f c).inst = c.inst := fun c => (hs c).inst
+  have ht : ∀ c, (f c).table = c.table := fun c => by rcases hs c with h | h <;> rw [h]
+  refine ⟨e1, fun _ _ => ⟨e2, e3, e4, e5, e6⟩, ?_, by omega, by omega, ?_, ?_, fun j hj => Or.inl (e11 ▸ hj),
+    fun h => absurd hk h, ?_, ?_⟩
+  · intro _ _ h _
+    rcases e7 with e7 | e7
+    · exact e7
+    · rw [e7]; exact h
+  · intro j; rw [hcli]
+    refine ⟨?_, Or.inl (hs _).phase, Or.inl (hi _), fun o ho => Or.inl (by rw [← ht]; exact ho)⟩
+    rcases hs (s.cli j) with h | h <;> rw [h]
+  · intro j _ _; rw [hcli]; exact hs _
+  · intro _ i j a h1 h2
+    rw [hcli, hi] at h1 h2; exact Or.inr ⟨h1, h2⟩
+  · intro _ i j o h1 h2
+    rw [hcli, ht] at h1 h2; exact Or.inr ⟨h1, h2⟩
+
+/-- the clients a per-client function may touch besides those waiting in the pool's queue: its own, and for a one-shot
+server (whose accept thread closes the server when its client ends) any -/
+def Tk (s : St) (k : Nat) (j : Nat) : Prop := j = k ∨ s.cfg.kind = .oneshot
 
 theorem closeEffect_cred (c : Cli) : (closeEffect c).cred = c.cred := by
   unfold closeEffect shutOne
@@ -409,10 +484,13 @@ theorem dropEffect_table (c : Cli) (o : Nat) (h : o ∈ (dropEffect c).table) : 
   · exact endServe_table c o h
   · exact h
 
+@[simp] theorem baseClose_queue (s : St) : (baseClose s).queue = s.queue := by
+  unfold baseClose; split <;> rfl
+
 theorem baseClose_effC (s : St) : EffC s (baseClose s) (fun _ => True) := by
   unfold baseClose
   split
-  · exact (Eff.refl s _).toC
+  · exact EffC.refl s _
   · exact EffC.map s _ closeEffect closeEffect_cred closeEffect_phase closeEffect_inst closeEffect_table rfl rfl rfl rfl
 
 theorem poolClose_effC (s t : St) (h : poolClose s = some t) : EffC s t (fun _ => True) := by
@@ -440,7 +518,7 @@ theorem EffC.set1 (s t : St) (k : Nat) (c' : Cli) (hcred : c'.cred = (s.cli k).c
     intro j o ho; by_cases hj : j = k
     · subst hj; rw [hk] at ho; exact htab o ho
     · rw [hcli j hj] at ho; exact ho
-  refine ⟨e1, by omega, by omega, ?_, fun j hj => hcli j hj, ?_, ?_⟩
+  refine ⟨e1, by omega, by omega, ?_, fun j hj => Or.inl (hcli j hj), ?_, ?_⟩
   · intro j; by_cases hj : j = k
     · subst hj; rw [hk]; exact ⟨hcred, hph, Or.inl hinst, fun o ho => Or.inl (htab o ho)⟩
     · rw [hcli j hj]; exact CRel.refl _ _ _
@@ -451,153 +529,363 @@ theorem afterEnd_eff (s : St) (k : Nat) : Eff s (afterEnd s k) (Tk s k) := by
   unfold afterEnd
   split
   · rename_i hk
-    refine EffC.toEff_oneshot ?_ hk
     have e1 : EffC s { (s.set k { s.cli k with tracked := false }) with acceptBusy := none, acceptAlive := false }
         (· = k) :=
       EffC.set1 s _ k { s.cli k with tracked := false } rfl (Or.inl rfl) rfl (fun _ h => h) rfl rfl rfl rfl
-    exact (e1.trans (baseClose_effC _)).mono (fun j _ => Or.inr (Or.inl hk))
+    exact EffC.toEff_oneshot ((e1.trans (baseClose_effC _)).mono (fun j _ => Or.inr hk)) hk
+      (fun j hj => Or.inl (by simpa using hj)) (fun j => Or.inr hk)
   · exact (Eff.set1 s (s.set k { s.cli k with tracked := false }) k { s.cli k with tracked := false } rfl (Or.inl rfl) rfl
-      (fun _ h => h) rfl rfl rfl rfl rfl rfl rfl rfl rfl rfl).mono (fun j hj => Or.inl hj)
+      (fun _ h => h) rfl rfl rfl rfl rfl rfl rfl rfl rfl rfl rfl).mono (fun j hj => Or.inl hj)
+
+theorem Tk_or {s : St} {k : Nat} {t : St} (h : t.cfg = s.cfg) (j : Nat) (hj : j = k ∨ Tk t k j) : Tk s k j := by
+  rcases hj with hj | hj | hj
+  · exact Or.inl hj
+  · exact Or.inl hj
+  · exact Or.inr (h ▸ hj)
 
 theorem applyConsumed_eff (s : St) (k : Nat) (r : Cli × Nat) (h : Served1 (s.cli k) s.nextObj r) :
     Eff s (applyConsumed s k r) (Tk s k) := by
   have e1 : Eff s { (s.set k r.1) with nextObj := r.2 } (· = k) :=
-    Eff.setServe s _ k r.1 r.2 h.cred (Or.inr h.live) h.inst h.le h.table rfl rfl rfl rfl rfl rfl rfl rfl rfl rfl
+    Eff.setServe s _ k r.1 r.2 h.cred (Or.inr h.live) h.inst h.le h.table rfl rfl rfl rfl rfl rfl rfl rfl rfl rfl rfl
   unfold applyConsumed
   split
-  · refine (e1.trans (afterEnd_eff _ k)).mono ?_
-    intro j hj; rcases hj with hj | hj
-    · exact Or.inl hj
-    · exact hj
+  · exact (e1.trans (afterEnd_eff _ k)).mono (Tk_or rfl)
   · exact e1.mono (fun j hj => Or.inl hj)
 
 theorem runDedicated_eff (s : St) (k : Nat) : Eff s (runDedicated s k) (Tk s k) := by
   unfold runDedicated
-  have e0 : Eff s { s with frames := s.frames + dedFrames (s.cli k).inbox } (fun _ => False) :=
-    Eff.same s _ _ rfl rfl rfl rfl rfl rfl rfl rfl rfl rfl
-  refine (e0.trans (applyConsumed_eff _ k _ (consume_served _ _ _))).mono ?_
-  intro j hj; rcases hj with hj | hj
-  · exact absurd hj id
-  · exact hj
+  have e0 : Eff s { s with frames := s.frames + dedFrames (s.cli k).inbox } (· = k) :=
+    Eff.same s _ _ rfl rfl rfl rfl rfl rfl rfl rfl rfl rfl (fun j hj => Or.inl hj)
+  exact (e0.trans (applyConsumed_eff _ k _ (consume_served _ _ _))).mono (Tk_or rfl)
 
 theorem serveClient_eff (s : St) (k : Nat) : Eff s (serveClient s k) (Tk s k) := by
   unfold serveClient
-  refine ((built_eff s k).trans (runDedicated_eff _ k)).mono ?_
-  intro j hj; rcases hj with hj | hj
-  · exact Or.inl hj
-  · exact hj
+  exact ((built_eff s k).trans (runDedicated_eff _ k)).mono (Tk_or rfl)
 
 theorem release_eff (s : St) (k : Nat) : Eff s (s.set k (release (s.cli k))) (· = k) :=
-  Eff.set1 s _ k (release (s.cli k)) rfl (Or.inr (by simp [Live])) rfl (fun _ h => h) rfl rfl rfl rfl rfl rfl rfl rfl rfl rfl
+  Eff.set1 s _ k (release (s.cli k)) rfl (Or.inr (by simp [Live])) rfl (fun _ h => h)
+    rfl rfl rfl rfl rfl rfl rfl rfl rfl rfl rfl
 
 theorem authServe_eff (s : St) (k : Nat) : Eff s (authServe s k) (Tk s k) := by
   unfold authServe
   split
   · split
     · exact serveClient_eff s k
-    · refine ((release_eff s k).trans (afterEnd_eff _ k)).mono ?_
-      intro j hj; rcases hj with hj | hj
-      · exact Or.inl hj
-      · exact hj
+    · exact ((release_eff s k).trans (afterEnd_eff _ k)).mono (Tk_or rfl)
     · split
-      · refine ((release_eff s k).trans (afterEnd_eff _ k)).mono ?_
-        intro j hj; rcases hj with hj | hj
-        · exact Or.inl hj
-        · exact hj
-      · exact (Eff.set1 s (s.set k { s.cli k with phase := .authing }) k { s.cli k with phase := .authing } rfl (Or.inr (by simp [Live])) rfl (fun _ h => h)
-          rfl rfl rfl rfl rfl rfl rfl rfl rfl rfl).mono (fun j hj => Or.inl hj)
+      · exact ((release_eff s k).trans (afterEnd_eff _ k)).mono (Tk_or rfl)
+      · exact (Eff.set1 s (s.set k { s.cli k with phase := .authing }) k { s.cli k with phase := .authing } rfl
+          (Or.inr (by simp [Live])) rfl (fun _ h => h) rfl rfl rfl rfl rfl rfl rfl rfl rfl rfl rfl).mono
+          (fun j hj => Or.inl hj)
   · exact serveClient_eff s k
-
 
 /-! #### pool -/
 
-def All (_ : Nat) : Prop := True
-
-theorem Eff.all {s t : St} {T : Nat → Prop} (e : Eff s t T) : Eff s t All := e.mono (fun _ _ => trivial)
-
 theorem poolPlace_eff (s : St) (k : Nat) (r : Cli × Nat) (h : Served1 (s.cli k) s.nextObj r) :
-    Eff s (poolPlace s k r) All := by
+    Eff s (poolPlace s k r) (· = k) := by
   unfold poolPlace
   split
-  · exact Eff.all (T := (· = k)) (Eff.setServe s _ k { r.1 with inFd := false } r.2 h.cred (Or.inr h.live) h.inst h.le
-      h.table rfl rfl rfl rfl rfl rfl rfl rfl rfl rfl)
-  · exact Eff.all (T := (· = k)) (Eff.setServe s _ k r.1 r.2 h.cred (Or.inr h.live) h.inst h.le h.table
-      rfl rfl rfl rfl rfl rfl rfl rfl rfl rfl)
-  · exact Eff.all (T := (· = k)) (Eff.setServe s _ k { r.1 with polled := true } r.2 h.cred (Or.inr h.live) h.inst h.le
-      h.table rfl rfl rfl rfl rfl rfl rfl rfl rfl rfl)
+  · exact Eff.setServe s _ k { r.1 with inFd := false } r.2 h.cred (Or.inr h.live) h.inst h.le
+      h.table rfl rfl rfl rfl rfl rfl rfl rfl rfl rfl rfl
+  · exact Eff.setServe s _ k r.1 r.2 h.cred (Or.inr h.live) h.inst h.le h.table
+      rfl rfl rfl rfl rfl rfl rfl rfl rfl rfl rfl
+  · exact Eff.setServe s _ k { r.1 with polled := true } r.2 h.cred (Or.inr h.live) h.inst h.le
+      h.table rfl rfl rfl rfl rfl rfl rfl rfl rfl rfl rfl
 
-theorem poolServeOne_eff (s : St) (k : Nat) : Eff s (poolServeOne s k) All := by
+theorem poolServeOne_eff (s : St) (k : Nat) : Eff s (poolServeOne s k) (· = k) := by
   unfold poolServeOne
-  have e0 : Eff s { s with frames := s.frames + poolFrames (s.cli k).inbox } (fun _ => False) :=
-    Eff.same s _ _ rfl rfl rfl rfl rfl rfl rfl rfl rfl rfl
-  exact (e0.trans (poolPlace_eff _ k _ (poolConsume_served _ _ _))).all
+  have e0 : Eff s { s with frames := s.frames + poolFrames (s.cli k).inbox } (· = k) :=
+    Eff.same s _ _ rfl rfl rfl rfl rfl rfl rfl rfl rfl rfl (fun j hj => Or.inl hj)
+  exact (e0.trans (poolPlace_eff _ k _ (poolConsume_served _ _ _))).mono (fun j hj => hj.elim id id)
 
-theorem drain_eff (l : List Nat) (s : St) : Eff s (drain l s) All := by
+/-- free workers serve only connections that were waiting in the queue handed to them -/
+theorem drain_eff (l : List Nat) (s : St) : Eff s (drain l s) (· ∈ l) := by
   induction l generalizing s with
-  | nil => exact Eff.same s _ _ rfl rfl rfl rfl rfl rfl rfl rfl rfl rfl
+  | nil => exact Eff.same s _ _ rfl rfl rfl rfl rfl rfl rfl rfl rfl rfl (fun j hj => by simp [drain] at hj)
   | cons a l ih =>
     unfold drain
     split
-    · exact Eff.same s _ _ rfl rfl rfl rfl rfl rfl rfl rfl rfl rfl
-    · exact ((poolServeOne_eff s a).trans (ih _)).all
+    · exact Eff.same s _ _ rfl rfl rfl rfl rfl rfl rfl rfl rfl rfl (fun j hj => Or.inr hj)
+    · refine ((poolServeOne_eff s a).trans (ih _)).mono ?_
+      intro j hj; rcases hj with hj | hj
+      · rw [hj]; simp
+      · simp [hj]
 
-theorem poolWake_eff (s : St) (k : Nat) : Eff s (poolWake s k) All := by
+theorem poolWake_eff (s : St) (k : Nat) : Eff s (poolWake s k) (· = k) := by
   unfold poolWake
   split
   · exact Eff.refl s _
   · refine ((Eff.set1 s (s.set k { s.cli k with phase := .queued, polled := false }) k
       { s.cli k with phase := .queued, polled := false } rfl (Or.inr (by simp [Live])) rfl (fun _ h => h)
-      rfl rfl rfl rfl rfl rfl rfl rfl rfl rfl).trans (drain_eff _ _)).all
+      rfl rfl rfl rfl rfl rfl rfl rfl rfl rfl rfl).trans (drain_eff _ _)).mono' ?_
+    intro j hj
+    rcases hj with hj | hj
+    · exact Or.inl hj
+    · simp at hj; rcases hj with hj | hj
+      · exact Or.inr hj
+      · exact Or.inl hj
 
-theorem poolUnblock_eff (s : St) (k : Nat) : Eff s (poolUnblock s k) All := by
+theorem poolUnblock_eff (s : St) (k : Nat) : Eff s (poolUnblock s k) (· = k) := by
   unfold poolUnblock
   refine ((Eff.set1 s { (s.set k { endServe (s.cli k) with inFd := false }) with blocked := rm k s.blocked } k
     { endServe (s.cli k) with inFd := false } (endServe_cred _) (Or.inr (by simp [Live])) (endServe_inst _)
-    (fun o h => endServe_table _ o h) rfl rfl rfl rfl rfl rfl rfl rfl rfl rfl).trans (drain_eff _ _)).all
+    (fun o h => endServe_table _ o h) rfl rfl rfl rfl rfl rfl rfl rfl rfl rfl rfl).trans (drain_eff _ _)).mono' ?_
+  intro j hj
+  rcases hj with hj | hj
+  · exact Or.inl hj
+  · exact Or.inr hj
 
-/-- a map over all records that keeps everything the relation reads -/
-theorem Eff.map (s t : St) (f : Cli → Cli) (hc : ∀ c, (f c).cred = c.cred)
-    (hp : ∀ c, (f c).phase = c.phase ∨ Live (f c).phase) (hi : ∀ c, (f c).inst = c.inst)
-    (ht : ∀ c o, o ∈ (f c).table → o ∈ c.table)
-    (e1 : t.cfg = s.cfg) (e2 : t.listening = s.listening) (e3 : t.active = s.active)
-    (e4 : t.acceptAlive = s.acceptAlive) (e5 : t.closedFlag = s.closedFlag) (e6 : t.poolUp = s.poolUp)
-    (e7 : t.acceptBusy = none ∨ t.acceptBusy = s.acceptBusy) (e8 : t.nextInst = s.nextInst) (e9 : t.nextObj = s.nextObj)
-    (e10 : t.cli = (s.mapCli f).cli) : Eff s t All := by
-  have c := EffC.map s t f hc hp hi ht e1 e8 e9 e10
-  refine ⟨e1, fun _ _ => ⟨e2, e3, e4, e5, e6⟩, ?_, c.nI, c.nO, c.cli, c.frame, c.uniqI, c.uniqO⟩
-  intro _ _ h _
-  rcases e7 with e7 | e7
-  · exact e7
-  · rw [e7]; exact h
+theorem untrackAll_eff (s : St) (hk : s.cfg.kind = .pool) : Eff s (untrackAll s) (fun _ => False) :=
+  Eff.mapSame s _ (fun c => { c with tracked := false }) (fun _ => Or.inr rfl) hk
+    rfl rfl rfl rfl rfl rfl (Or.inr rfl) rfl rfl rfl rfl
 
-theorem untrackAll_eff (s : St) : Eff s (untrackAll s) All :=
-  Eff.map s _ (fun c => { c with tracked := false }) (fun _ => rfl) (fun _ => Or.inl rfl) (fun _ => rfl)
-    (fun _ _ h => h) rfl rfl rfl rfl rfl rfl (Or.inr rfl) rfl rfl rfl
-
-theorem poolBuild_eff (s : St) (k : Nat) : Eff s (poolBuild s k) All := by
+theorem poolBuild_eff (s : St) (k : Nat) (hk : s.cfg.kind = .pool) : Eff s (poolBuild s k) (· = k) := by
   unfold poolBuild
   have e2 : Eff (built s k) ((built s k).set k { (built s k).cli k with inFd := true, polled := true }) (· = k) :=
     Eff.set1 (built s k) _ k { (built s k).cli k with inFd := true, polled := true } rfl (Or.inl rfl) rfl
-      (fun _ h => h) rfl rfl rfl rfl rfl rfl rfl rfl rfl rfl
-  exact Eff.all ((((built_eff s k).trans e2).trans (untrackAll_eff _)).trans (poolWake_eff _ k))
+      (fun _ h => h) rfl rfl rfl rfl rfl rfl rfl rfl rfl rfl rfl
+  refine ((((built_eff s k).trans e2).trans (untrackAll_eff _ hk)).trans (poolWake_eff _ k)).mono ?_
+  intro j hj
+  rcases hj with ((hj | hj) | hj) | hj
+  · exact hj
+  · exact hj
+  · exact absurd hj id
+  · exact hj
 
-theorem poolAccept_eff (s : St) (k : Nat) (hk : s.cfg.kind = .pool) : Eff s (poolAccept s k) All := by
+theorem poolAccept_eff (s : St) (k : Nat) (hk : s.cfg.kind = .pool) : Eff s (poolAccept s k) (· = k) := by
   unfold poolAccept
   split
   · split
-    · exact poolBuild_eff s k
-    · exact Eff.all ((release_eff s k).trans (untrackAll_eff _))
+    · exact poolBuild_eff s k hk
+    · exact ((release_eff s k).trans (untrackAll_eff _ hk)).mono (fun j hj => hj.elim id (fun h => absurd h id))
     · rename_i hsil
       split
-      · exact Eff.all ((release_eff s k).trans (untrackAll_eff _))
+      · exact ((release_eff s k).trans (untrackAll_eff _ hk)).mono (fun j hj => hj.elim id (fun h => absurd h id))
       · -- the stall: only a client that sends no credentials can occupy the accept thread
-        refine Eff.all (T := (· = k)) (Eff.set1B s _ k { s.cli k with phase := .authing } rfl
-          (Or.inr (by simp [Live])) rfl (fun _ h => h) rfl rfl rfl rfl rfl rfl ?_ rfl rfl rfl)
+        refine Eff.set1B s _ k { s.cli k with phase := .authing } rfl
+          (Or.inr (by simp [Live])) rfl (fun _ h => h) rfl rfl rfl rfl rfl rfl ?_ rfl rfl rfl rfl
         intro h1
         rcases h1 with h1 | h1 | h1
         · rw [hk] at h1; cases h1
         · rw [hk] at h1; cases h1
         · exact absurd hsil (h1 k)
-  · exact poolBuild_eff s k
+  · exact poolBuild_eff s k hk
+
+/-! #### the accept loop and the client actions -/
+
+theorem acceptOne_eff (s : St) (k : Nat) : Eff s (acceptOne s k) (Tk s k) := by
+  unfold acceptOne
+  split
+  · have e1 : Eff s { (s.set k { s.cli k with srvFd := true, tracked := true, phase := .idle }) with
+        accepted := s.accepted + 1 } (· = k) :=
+      Eff.set1 s _ k { s.cli k with srvFd := true, tracked := true, phase := .idle } rfl (Or.inr (by simp [Live])) rfl
+        (fun _ h => h) rfl rfl rfl rfl rfl rfl rfl rfl rfl rfl rfl
+    exact (e1.trans (authServe_eff _ k)).mono (Tk_or rfl)
+  · have e1 : Eff s { (s.set k { s.cli k with child := true, phase := .idle }) with accepted := s.accepted + 1 }
+        (· = k) :=
+      Eff.set1 s _ k { s.cli k with child := true, phase := .idle } rfl (Or.inr (by simp [Live])) rfl
+        (fun _ h => h) rfl rfl rfl rfl rfl rfl rfl rfl rfl rfl rfl
+    exact (e1.trans (authServe_eff _ k)).mono (Tk_or rfl)
+  · rename_i hk
+    have e1 : EffC s { (s.set k { s.cli k with srvFd := true, tracked := true, phase := .idle }) with
+        accepted := s.accepted + 1, acceptBusy := some k } (· = k) :=
+      EffC.set1 s _ k { s.cli k with srvFd := true, tracked := true, phase := .idle } rfl (Or.inr (by simp [Live])) rfl
+        (fun _ h => h) rfl rfl rfl rfl
+    have e2 := authServe_eff { (s.set k { s.cli k with srvFd := true, tracked := true, phase := .idle }) with
+        accepted := s.accepted + 1, acceptBusy := some k } k
+    refine EffC.toEff_oneshot ((e1.trans e2.toC).mono (fun j _ => Or.inr hk)) hk ?_ (fun j => Or.inr hk)
+    intro j hj
+    rcases e2.queue j hj with h | h
+    · exact Or.inl h
+    · exact Or.inr (Or.inr hk)
+  · rename_i hk
+    have e1 : Eff s { (s.set k { s.cli k with srvFd := true, tracked := true, phase := .idle }) with
+        accepted := s.accepted + 1 } (· = k) :=
+      Eff.set1 s _ k { s.cli k with srvFd := true, tracked := true, phase := .idle } rfl (Or.inr (by simp [Live])) rfl
+        (fun _ h => h) rfl rfl rfl rfl rfl rfl rfl rfl rfl rfl rfl
+    exact (e1.trans (poolAccept_eff _ k hk)).mono (fun j hj => Or.inl (hj.elim id id))
+
+/-- the accept loop touches only clients that were waiting in the listen queue (or in the pool's queue) -/
+theorem acceptAll_eff (l : List Nat) (s : St) :
+    Eff s (acceptAll l s) (fun j => (s.cli j).phase = .backlog ∨ s.cfg.kind = .oneshot) := by
+  induction l generalizing s with
+  | nil => exact Eff.refl s _
+  | cons a l ih =>
+    unfold acceptAll
+    split
+    · rename_i hacc
+      have hb : (s.cli a).phase = .backlog := by simp at hacc; exact hacc.2
+      have e1 := acceptOne_eff s a
+      refine (e1.trans (ih _)).mono' ?_
+      intro j hj
+      rcases hj with hj | hj
+      · rcases hj with hj | hj
+        · left; left; rw [hj]; exact hb
+        · exact Or.inl (Or.inr hj)
+      · rcases hj with hj | hj
+        · by_cases hT : Tk s a j
+          · rcases hT with hT | hT
+            · left; left; rw [hT]; exact hb
+            · exact Or.inl (Or.inr hT)
+          · by_cases hq : j ∈ s.queue
+            · exact Or.inr hq
+            · left; left; rw [← (e1.frame j hT hq).phase]; exact hj
+        · left; right; rw [← e1.cfg]; exact hj
+    · exact ih s
+
+/-- whom the arrival of something from client `k` may concern -/
+def Tw (s : St) (k : Nat) (j : Nat) : Prop := j = k ∨ (s.cli j).phase = .backlog ∨ s.cfg.kind = .oneshot
+
+theorem poolAuthGone_eff (s : St) (k : Nat) (hk : s.cfg.kind = .pool) : Eff s (poolAuthGone s k) (Tw s k) := by
+  unfold poolAuthGone
+  have e1 := (release_eff s k).trans (untrackAll_eff _ hk)
+  have e2 : Eff (untrackAll (s.set k (release (s.cli k))))
+      { (untrackAll (s.set k (release (s.cli k)))) with acceptBusy := none } (fun _ => False) :=
+    Eff.mapSame _ _ id (fun _ => Or.inl rfl) hk rfl rfl rfl rfl rfl rfl (Or.inl rfl) rfl rfl rfl rfl
+  have e12 := e1.trans e2
+  refine (e12.trans (acceptAll_eff _ _)).mono' ?_
+  intro j hj
+  rcases hj with ((hj | hj) | hj) | hj
+  · exact Or.inl (Or.inl hj)
+  · exact absurd hj id
+  · exact absurd hj id
+  · rcases hj with hj | hj
+    · by_cases hjk : j = k
+      · exact Or.inl (Or.inl hjk)
+      · by_cases hq : j ∈ s.queue
+        · exact Or.inr hq
+        · left; right; left
+          have := (e12.frame j (by intro h; rcases h with (h | h) | h <;> first | exact hjk h | exact h) hq).phase
+          rw [← this]; exact hj
+    · left; right; right; rw [← e12.cfg]; exact hj
+
+theorem wake_eff (s : St) (k : Nat) : Eff s (wake s k) (Tw s k) := by
+  unfold wake
+  split
+  · split
+    · exact (poolWake_eff s k).mono (fun j hj => Or.inl hj)
+    · exact (runDedicated_eff s k).mono (fun j hj => hj.elim Or.inl (fun h => Or.inr (Or.inr h)))
+  · split
+    · split
+      · exact (poolUnblock_eff s k).mono (fun j hj => Or.inl hj)
+      · refine ((Eff.set1 s (s.set k (endServe (s.cli k))) k (endServe (s.cli k)) (endServe_cred _)
+          (Or.inr (by simp [Live])) (endServe_inst _) (fun o h => endServe_table _ o h)
+          rfl rfl rfl rfl rfl rfl rfl rfl rfl rfl rfl).trans (afterEnd_eff _ k)).mono ?_
+        intro j hj
+        exact (Tk_or (s := s) rfl j hj).elim Or.inl (fun h => Or.inr (Or.inr h))
+    · exact Eff.refl s _
+  · split
+    · split
+      · rename_i hk; exact poolAuthGone_eff s k hk
+      · refine ((release_eff s k).trans (afterEnd_eff _ k)).mono ?_
+        intro j hj
+        exact (Tk_or (s := s) rfl j hj).elim Or.inl (fun h => Or.inr (Or.inr h))
+    · exact Eff.refl s _
+  · exact Eff.refl s _
+
+/-- bytes written by a client change nothing the relation reads until the server reads them -/
+theorem inbox_eff (s : St) (k : Nat) (c' : Cli) (h1 : c'.cred = (s.cli k).cred) (h2 : c'.phase = (s.cli k).phase)
+    (h3 : c'.inst = (s.cli k).inst) (h4 : c'.table = (s.cli k).table) : Eff s (s.set k c') (· = k) :=
+  Eff.set1 s _ k c' h1 (Or.inl h2) h3 (fun o h => by rw [← h4]; exact h) rfl rfl rfl rfl rfl rfl rfl rfl rfl rfl rfl
+
+theorem Tw_or {s t : St} {k : Nat} (e : Eff s t (· = k)) (j : Nat) (hj : j = k ∨ Tw t k j) : Tw s k j ∨ j ∈ s.queue := by
+  rcases hj with hj | hj | hj | hj
+  · exact Or.inl (Or.inl hj)
+  · exact Or.inl (Or.inl hj)
+  · by_cases hjk : j = k
+    · exact Or.inl (Or.inl hjk)
+    · by_cases hq : j ∈ s.queue
+      · exact Or.inr hq
+      · left; right; left; rw [← (e.frame j hjk hq).phase]; exact hj
+  · left; right; right; rw [← e.cfg]; exact hj
+
+theorem send_eff (s : St) (k : Nat) (l : List Item) : Eff s (send s k l) (Tw s k) := by
+  unfold send
+  split
+  · exact Eff.refl s _
+  · have e1 := inbox_eff s k { s.cli k with inbox := (s.cli k).inbox ++ l } rfl rfl rfl rfl
+    exact (e1.trans (wake_eff _ k)).mono' (Tw_or e1)
+
+/-- who an action is about -/
+def Op.client : Op → Option Nat
+  | .connect k _ => some k
+  | .call k _ => some k
+  | .raw k _ => some k
+  | .gracefulClose k => some k
+  | .abruptClose k => some k
+  | .serverClose => none
+
+/-- the state right after a new connection has joined the listen queue, before the accept loop looks -/
+def joined (s : St) (k : Nat) (cred : Cred) : St :=
+  { (s.set k { cred := cred, phase := .backlog, clientOpen := true }) with ids := s.ids ++ [k] }
+
+theorem step_connect {s t : St} {o : Obs} {k : Nat} {cred : Cred} (h : step s (.connect k cred) = .ok (t, o)) :
+    (t = s ∧ o = .refused ∧ s.listening = false) ∨
+    (t = acceptAll (s.ids ++ [k]) (joined s k cred) ∧ o = .ok ∧ (s.cli k).phase = .absent ∧ s.listening = true ∧
+      (cred = .bad → s.cfg.auth = true)) := by
+  simp only [step] at h
+  split at h
+  · cases h
+  · rename_i hg
+    have habs : (s.cli k).phase = .absent := by
+      cases hp : (s.cli k).phase <;> simp [hp] at hg ⊢
+    have hbad : cred = .bad → s.cfg.auth = true := by
+      intro hc; subst hc; cases ha : s.cfg.auth <;> simp [habs, ha] at hg ⊢
+    split at h
+    · rename_i hl
+      simp only [Except.ok.injEq, Prod.mk.injEq] at h
+      exact Or.inl ⟨h.1.symm, h.2.symm, by simpa using hl⟩
+    · rename_i hl
+      simp only [Except.ok.injEq, Prod.mk.injEq] at h
+      exact Or.inr ⟨h.1.symm, h.2.symm, habs, by simpa using hl, hbad⟩
+
+/-- every action of a connected client: containment -/
+theorem step_eff {s t : St} {o : Obs} (op : Op) (hop : op ≠ .serverClose) (hcon : ∀ k c, op ≠ .connect k c)
+    (h : step s op = .ok (t, o)) :
+    Eff s t (fun j => some j = op.client ∨ (s.cli j).phase = .backlog ∨ s.cfg.kind = .oneshot) := by
+  have key : ∀ (k : Nat) (c' : Cli) (l : List Item), c'.cred = (s.cli k).cred → c'.phase = (s.cli k).phase →
+      c'.inst = (s.cli k).inst → c'.table = (s.cli k).table →
+      Eff s (send (s.set k c') k l) (fun j => some j = some k ∨ (s.cli j).phase = .backlog ∨ s.cfg.kind = .oneshot) := by
+    intro k c' l h1 h2 h3 h4
+    have e1 := inbox_eff s k c' h1 h2 h3 h4
+    refine (e1.trans (send_eff _ k l)).mono' ?_
+    intro j hj
+    rcases Tw_or e1 j hj with h | h
+    · rcases h with h | h | h
+      · exact Or.inl (Or.inl (by rw [h]))
+      · exact Or.inl (Or.inr (Or.inl h))
+      · exact Or.inl (Or.inr (Or.inr h))
+    · exact Or.inr h
+  cases op with
+  | serverClose => exact absurd rfl hop
+  | connect k cred => exact absurd rfl (hcon k cred)
+  | call k r =>
+    simp only [step] at h
+    split at h
+    · cases h
+    · simp only [Except.ok.injEq, Prod.mk.injEq] at h
+      obtain ⟨rfl, _⟩ := h
+      exact key k _ _ rfl rfl rfl rfl
+  | raw k items =>
+    simp only [step] at h
+    split at h
+    · cases h
+    · simp only [Except.ok.injEq, Prod.mk.injEq] at h
+      obtain ⟨rfl, _⟩ := h
+      exact key k _ _ rfl rfl rfl rfl
+  | gracefulClose k =>
+    simp only [step] at h
+    split at h
+    · cases h
+    · simp only [Except.ok.injEq, Prod.mk.injEq] at h
+      obtain ⟨rfl, _⟩ := h
+      exact key k _ _ rfl rfl rfl rfl
+  | abruptClose k =>
+    simp only [step] at h
+    split at h
+    · cases h
+    · simp only [Except.ok.injEq, Prod.mk.injEq] at h
+      obtain ⟨rfl, _⟩ := h
+      exact key k _ _ rfl rfl rfl rfl
 
 end Rpyc.Srv
